@@ -22,6 +22,7 @@ fn engine_by_name(name: &str) -> Option<Box<dyn Engine>> {
   match name {
     "res" => Some(Box::new(engines::res::ResEngine)),
     "ks" => Some(Box::new(engines::ks::KsEngine)),
+    "stor" => Some(Box::new(engines::stor::StorEngine)),
     _ => None,
   }
 }
@@ -44,6 +45,22 @@ fn plan_for(property: &str) -> Option<Plan> {
       thorough_runs: 40_000_000,
       params_quick: &[("max_list", 8)],
       params_thorough: &[("max_list", 8)],
+    },
+    "C09" => Plan {
+      engine: "stor",
+      level: "fault_enumeration",
+      quick_runs: 30_000,
+      thorough_runs: 3_000_000,
+      params_quick: &[("max_ops", 12)],
+      params_thorough: &[("max_ops", 12)],
+    },
+    "C04" => Plan {
+      engine: "stor",
+      level: "exploration",
+      quick_runs: 30_000,
+      thorough_runs: 3_000_000,
+      params_quick: &[("max_ops", 12)],
+      params_thorough: &[("max_ops", 12)],
     },
     "C15" => Plan {
       engine: "ks",
